@@ -8,7 +8,9 @@ CLAIMS = {
     text="Coq theorems on a reference-graph model of CPython's reference counting (any finite graph): a graph that admits a rank "
          "increasing along every reference (checked by an executable certificate) and has no outside reference is reclaimed "
          "completely without a cyclic collector; a set of objects each referenced by a member of the set (an output stored on its own "
-         "autograd context, an object holding a closure over itself) survives for ever; whatever the caller references survives. "
+         "autograd context, an object holding a closure over itself) survives for ever; whatever the caller references survives; and the "
+         "complete characterisation: a node survives exactly when it belongs to a supported set (every member referenced by a root or "
+         "by another member), so with nothing held by the caller something survives iff the references contain such a set. "
          "The model runs on the reference graphs extracted from the library's helper objects after each call (exact agreement with "
          "the objects that are really still alive), and every graph without survivors passes the certificate.",
     note="Partial: references held on the C++ side (autograd nodes, saved tensors) are invisible to the extraction; they are covered "
@@ -37,11 +39,16 @@ CLAIMS = {
          "M-parallel part is fixed by the normalisation; the cotangents accumulated by symeig_torchfcn.backward (value, projected "
          "right-hand side + shifted solve + re-orthogonalisation, M-value, M-vector and parallel terms) satisfy <g, dx> + g_e de = "
          "<accA, dA x> + <accM, dM x> for EVERY tangent; the dense-path backward (full spectrum, distinct eigenvalues: "
-         "Y (F o Y^T G) Y^T + Y diag(g_e) Y^T, symmetrised) is the adjoint of the tangent of the eigendecomposition. The executable model of the implicit backward (degeneracy map, _ortho, solve "
+         "Y (F o Y^T G) Y^T + Y diag(g_e) Y^T, symmetrised) is the adjoint of the tangent of the eigendecomposition. Both formulas are also "
+         "proved for COINCIDING eigenvalues (any degeneracy map that masks the exactly degenerate pairs, cotangent with Y^T G symmetric on "
+         "the masked pairs - shown to be first-order gauge invariance; k kept columns with the coupled parallel term on the implicit path) "
+         "and in the COMPLEX Hermitian case (conjugation cj, derivation commuting with it, real-part pairing, phase gauge), dense and "
+         "implicit, distinct and coinciding. The executable model of the implicit backward (degeneracy map, _ortho, solve "
          "as an oracle) and of the dense-path backward runs at binary64 / complex binary64 against autograd (2^-26).",
-    note="Partial: the conjugate (complex) case and the degenerate case (arXiv:2011.04366) are covered by the "
-         "model correspondence and the oracle (torch.linalg.eigh / svd autograd; finite differences at exact degeneracies), not by a "
-         "theorem. Trusted: Coq kernel + vm_compute + PrimFloat; autograd's pull-backs; solve (C01, C02).",
+    note="Partial: the theorems assume a solution of the (singular) shifted systems; their numerical solution (findings F30, F39), svd "
+         "through symeig of A^H A and the agreement with a dense reference at finite precision are covered by the model correspondence "
+         "and the oracle (torch.linalg.eigh / svd autograd; finite differences at exact degeneracies), not by a theorem. "
+         "Trusted: Coq kernel + vm_compute + PrimFloat; autograd's pull-backs; solve (C01, C02).",
     technique="Coq/MathComp proof (adjoint of the eigenpair tangent under a derivation) + backward-formula model correspondence",
     ref="DESIGN.md section 7, C06"),
  "C05": dict(
@@ -148,7 +155,7 @@ CLAIMS = {
     text="MathComp theorems over any ordered field, any number of nodes: a reference rule whose moments are exact up to degree d "
          "gives, after the affine map the code applies, a rule that integrates every monomial of degree <= d exactly on [xl, xu] "
          "for all xl, xu in any order (binomial identity proved); linearity in the integrand; sign change under swapped limits "
-         "for node-symmetric rules; additivity over adjacent intervals. The Gallina model of leggauss (fed with numpy's table) "
+         "for node-symmetric rules; additivity over adjacent intervals; exactness for EVERY polynomial of degree <= d. The Gallina model of leggauss (fed with numpy's table) "
          "and of the tan transform is run at IEEE binary64 bit for bit against the public quad: every abscissa and the value.",
     note="Trusted: Coq kernel + vm_compute + PrimFloat; numpy's leggauss table (its moment defect <= 1e-13 up to degree 2n-1 is "
          "measured with exact rationals - a test of the oracle, not a theorem); torch.tan/cos/atan; the change of variables for "
@@ -159,7 +166,8 @@ CLAIMS = {
     text="MathComp theorems for any derivation (any parametrisation, any order): the derivative of the quadrature is the same "
          "quadrature of the differentiated integrand; tensors that do not influence the integrand get zero; the symbolic "
          "derivative used by the executable gradient model is the derivative; the backward quadrature's options are the forward "
-         "options updated by bck_options. The gradient model (rule applied to d f/d theta, second order, Leibniz terms) is "
+         "options updated by bck_options; for exactly integrated polynomial integrands the Leibniz limit gradient f(xu) D xu - f(xl) D xl is "
+         "the derivative of the forward value. The gradient model (rule applied to d f/d theta, second order, Leibniz terms) is "
          "evaluated by vm_compute and compared with autograd through the public quad to 2^-36; the option flow is compared exactly.",
     note="Trusted: Coq kernel + vm_compute + PrimFloat; autograd's pull-back through the user function; harness. Number / infinite "
          "limits, unused and object-held tensors, linear integrands at second order are implementation oracles.",
